@@ -767,12 +767,15 @@ end XotModel.Props
   code by the `bytes` suite.  Encoders (`encodeUtf8`, `encodeUtf16`) are the specification side.
 
     C02_declaration_reader        bytes that SPELL a rendered declaration (`LDecl`: any quotes, white
-                                  space around `=`, optional standalone) within the first 1024 bytes —
-                                  ASCII / UTF-8, UTF-16 or UCS-4 code units in either byte order,
-                                  with or without byte order mark — followed by anything: the reader
-                                  answers the label, `none` when there is no `encoding`
+                                  space around `=`, optional standalone) of ANY length — ASCII /
+                                  UTF-8, UTF-16 or UCS-4 code units in either byte order (NUL bytes
+                                  between the characters), a byte order mark or none in front —
+                                  followed by anything: the reader answers the label, `none` when
+                                  there is no `encoding` (as of /repo 41ece46, c3fcdf4)
     C02_declaration_reader_utf8 / _utf16   the two concrete forms
-    C02_declaration_reader_none   no `<?xml` at the start of the ASCII bytes: `none`
+    C02_declaration_reader_none   what the loop collects does not begin `<?xml`: `none`
+    C02_declaration_reader_non_ascii_none   a byte ≥ 0x80 after the byte order mark and before the
+                                  first `>`: `none`
     C02_bytes_utf8                UTF-8: with byte order mark (any text); without, declared `UTF-8` /
                                   no label / unknown label; `decodeBytes (encode t) = some t`
     C02_encoding_bait             UTF-8 without declaration, `encoding=` / `charset=` bait anywhere
@@ -782,46 +785,46 @@ end XotModel.Props
     C02_bytes_document            bytes that decode to the text of a well-formed spelling parse to
                                   exactly that document (with C02_lexical_prolog); _utf8 / _utf16 /
                                   _latin instances
-    C02_pi_lookalike_false        the remaining defect of the reader (closed counterexample)
+    C02_pi_lookalike_fixed        `<?éxml encoding="latin1"?>…` as UTF-8 is decoded as UTF-8 (41ece46)
 -/
 
 namespace XotModel.Props
 open XotModel XotModel.Witness XotModel.Bytes
 
-/-- C02_declaration_reader: the bytes `pre` spell (`Spells`: one byte per character in order; NUL and
-    bytes ≥ 0x80 anywhere in between, e.g. a byte order mark or the zero bytes of UTF-16 / UCS-4) a
-    declaration rendered in ANY `LDecl` layout and lie within the first 1024 bytes; whatever follows,
-    `xml_declaration` answers the `encoding` label, `none` when the declaration has none. -/
-theorem C02_declaration_reader (d : LDecl) (hok : d.ok = true) (pre tail : Bytes)
-    (hs : Spells pre d.render) (hlen : pre.length ≤ 1024) :
-    xmlDeclaration (pre ++ tail) = d.encoding :=
-  xmlDeclaration_spelled d hok pre tail hs hlen
+/-- C02_declaration_reader: after a byte order mark the reader removes, or none (`declBoms`: EF BB BF,
+    FF FE, FE FF, 00 00 FE FF, 00 00 FF FE), the bytes `pre` spell (`Spells`: one byte per character in
+    order; NUL bytes anywhere in between, e.g. the zero bytes of UTF-16 / UCS-4) a declaration rendered
+    in ANY `LDecl` layout, of any length; whatever follows, `xml_declaration` answers the `encoding`
+    label, `none` when the declaration has none. -/
+theorem C02_declaration_reader (d : LDecl) (hok : d.ok = true) (bom pre tail : Bytes)
+    (hbom : bom ∈ declBoms) (hs : Spells pre d.render) :
+    xmlDeclaration (bom ++ (pre ++ tail)) = d.encoding :=
+  xmlDeclaration_spelled d hok bom pre tail hbom hs
 
 /-- … in the ASCII-compatible single-byte / UTF-8 form, with or without the UTF-8 byte order mark. -/
-theorem C02_declaration_reader_utf8 (d : LDecl) (hok : d.ok = true) (bom : Bool) (tail : Bytes)
-    (hlen : (if bom then 3 else 0) + d.render.length ≤ 1024) :
-    xmlDeclaration ((if bom then bom8 else []) ++ encodeUtf8 d.render ++ tail) = d.encoding := by
-  have hasc := render_ascii d hok
-  refine xmlDeclaration_spelled d hok _ tail
-    (Spells.silent_append _ (by cases bom <;> simp [bom8]) (spells_utf8 _ hasc)) ?_
-  rw [List.length_append, length_encodeUtf8_ascii _ (fun c hc => (hasc c hc).2)]
-  cases bom <;> simpa [bom8] using hlen
+theorem C02_declaration_reader_utf8 (d : LDecl) (hok : d.ok = true) (bom : Bool) (tail : Bytes) :
+    xmlDeclaration ((if bom then bom8 else []) ++ (encodeUtf8 d.render ++ tail)) = d.encoding :=
+  xmlDeclaration_spelled d hok _ _ tail (by cases bom <;> simp [declBoms, bom8]) (spells_utf8 _ (render_ascii d hok))
 
 /-- … as UTF-16 code units in either byte order, with or without the matching byte order mark. -/
-theorem C02_declaration_reader_utf16 (d : LDecl) (hok : d.ok = true) (be bom : Bool) (tail : Bytes)
-    (hlen : (if bom then 2 else 0) + 2 * d.render.length ≤ 1024) :
-    xmlDeclaration ((if bom then bom16 be else []) ++ encodeUtf16 be d.render ++ tail) = d.encoding := by
-  have hasc := render_ascii d hok
-  refine xmlDeclaration_spelled d hok _ tail
-    (Spells.silent_append _ (by cases bom <;> cases be <;> simp [bom16]) (spells_utf16 be _ hasc)) ?_
-  rw [List.length_append, length_encodeUtf16_ascii be _ (fun c hc => (hasc c hc).2)]
-  cases bom <;> cases be <;> simpa [bom16] using hlen
+theorem C02_declaration_reader_utf16 (d : LDecl) (hok : d.ok = true) (be bom : Bool) (tail : Bytes) :
+    xmlDeclaration ((if bom then bom16 be else []) ++ (encodeUtf16 be d.render ++ tail)) = d.encoding :=
+  xmlDeclaration_spelled d hok _ _ tail (by cases bom <;> cases be <;> simp [declBoms, bom16])
+    (spells_utf16 be _ (render_ascii d hok))
 
-/-- No declaration: the ASCII bytes among the first 1024 (up to the first `>`) do not begin `<?xml`. -/
+/-- No declaration: what the loop collects after the byte order mark (the ASCII bytes up to the first
+    `>`) does not begin `<?xml`. -/
 theorem C02_declaration_reader_none (data : Bytes)
-    (h : (['<', '?', 'x', 'm', 'l'].isPrefixOf (collectAscii (data.take 1024))) = false) :
+    (h : ∀ a, collectAscii (stripDeclBom data) = some a → (['<', '?', 'x', 'm', 'l'].isPrefixOf a) = false) :
     xmlDeclaration data = none :=
   xmlDeclaration_none data h
+
+/-- C02_declaration_reader_non_ascii_none (/repo 41ece46): after the byte order mark, a byte ≥ 0x80
+    before the first `>` (in front of it only bytes < 0x80 other than `>`): not a declaration. -/
+theorem C02_declaration_reader_non_ascii_none (data p rest : Bytes) (b : Nat)
+    (hd : stripDeclBom data = p ++ b :: rest) (hb : 0x80 ≤ b) (hp : ∀ x ∈ p, x < 0x80 ∧ x ≠ 0x3E) :
+    xmlDeclaration data = none :=
+  xmlDeclaration_non_ascii_none data p rest b hd hb hp
 
 /-- The layout used in the examples: `<?xml version="1.0" encoding ='latin1' standalone="yes"?>` with
     a blank before and a TAB after the `=` of `encoding`, single quotes. -/
@@ -829,34 +832,46 @@ def exDeclLatin : LDecl :=
   { encoding := some ['l', 'a', 't', 'i', 'n', '1'], eEq := { before := [' '], after := ['\t'], single := true },
     standalone := some true }
 
-example : exDeclLatin.ok = true ∧ exDeclLatin.render.length ≤ 1024 := by decide
+example : exDeclLatin.ok = true := by decide
 /-- direct evaluation of the model: single-byte form followed by a non-ASCII byte … -/
 example : xmlDeclaration (asciiBytes exDeclLatin.render ++ [0xE9]) = some ['l', 'a', 't', 'i', 'n', '1'] := by decide
 /-- … UTF-16LE code units behind a byte order mark … -/
 example : xmlDeclaration (bom16 false ++ encodeUtf16 false exDeclLatin.render) = some ['l', 'a', 't', 'i', 'n', '1'] := by
-  decide
+  decide +kernel
 /-- … no `encoding`: none; no declaration: none. -/
 example : xmlDeclaration (asciiBytes ({ standalone := some false } : LDecl).render ++ [0x3C, 0x61, 0x2F, 0x3E]) = none := by
   decide
 example : xmlDeclaration [0x3C, 0x61, 0x20, 0x65, 0x6E, 0x63, 0x6F, 0x64, 0x69, 0x6E, 0x67, 0x3D, 0x27, 0x78, 0x27, 0x2F, 0x3E] = none := by
   decide
 
-/-- The limit of the reader (finding C02:decode-long-declaration-beyond-1024-differs-from-the-text):
-    1100 blanks before `encoding` push the end of the declaration beyond byte 1024 and the label is
-    not read, although the declaration is well formed. -/
+/-- `<?` C3 A9 `xml encoding="latin1"?>` (a processing instruction with target `éxml`), and a label with a
+    non-ASCII byte in it: not declarations. -/
+example : xmlDeclaration ([0x3C, 0x3F, 0xC3, 0xA9] ++ asciiBytes ['x', 'm', 'l', ' ', 'e', 'n', 'c', 'o', 'd', 'i', 'n', 'g', '=',
+    '"', 'l', 'a', 't', 'i', 'n', '1', '"', '?', '>']) = none := by decide
+example : xmlDeclaration (asciiBytes ['<', '?', 'x', 'm', 'l', ' ', 'e', 'n', 'c', 'o', 'd', 'i', 'n', 'g', '=', '"', 'l'] ++ [0xE9] ++
+    asciiBytes ['"', '?', '>']) = none :=
+  C02_declaration_reader_non_ascii_none _ (asciiBytes ['<', '?', 'x', 'm', 'l', ' ', 'e', 'n', 'c', 'o', 'd', 'i', 'n', 'g', '=', '"', 'l'])
+    (asciiBytes ['"', '?', '>']) 0xE9 (by decide) (by decide) (by decide)
+
+/-- No limit on the length (/repo c3fcdf4; the former finding
+    C02:decode-long-declaration-beyond-1024-differs-from-the-text): 1100 blanks before `encoding` push the
+    end of the declaration beyond byte 1024, the label is read. -/
 def exDeclLong : LDecl := { exDeclLatin with wEnc := List.replicate 1100 ' ' }
 example : exDeclLong.ok = true := by decide +kernel
-example : xmlDeclaration (asciiBytes exDeclLong.render) = none := by decide +kernel
+example : xmlDeclaration (asciiBytes exDeclLong.render ++ [0xE9]) = some ['l', 'a', 't', 'i', 'n', '1'] := by
+  have := C02_declaration_reader_utf8 exDeclLong (by decide +kernel) false [0xE9]
+  rw [encodeUtf8_ascii _ (fun c hc => (render_ascii exDeclLong (by decide +kernel) c hc).2)] at this
+  exact this
 
 /-- C02_bytes_utf8: (1) behind the UTF-8 byte order mark EVERY text comes back, the mark removed;
     (2) without the mark, a text that starts with a declaration — labelled with any label `for_label`
     maps to UTF-8 (`UTF-8`, `utf8`, …) or does not know, or without label — comes back. -/
 theorem C02_bytes_utf8 :
     (∀ t : Str, decodeBytes (bom8 ++ encodeUtf8 t) = some t) ∧
-    (∀ (d : LDecl) (body : Str), d.ok = true → d.render.length ≤ 1024 →
+    (∀ (d : LDecl) (body : Str), d.ok = true →
       (∀ L, d.encoding = some L → (forLabel (normalise L)).getD .utf8 = .utf8) →
       decodeBytes (encodeUtf8 (d.render ++ body)) = some (d.render ++ body)) :=
-  ⟨decodeBytes_bom8, fun d body hok hlen hl => decodeBytes_utf8_declared d hok hlen hl body⟩
+  ⟨decodeBytes_bom8, fun d body hok hl => decodeBytes_utf8_declared d hok hl body⟩
 
 /-- The labels of the suite meet the label hypothesis. -/
 example : ∀ L ∈ [['U', 'T', 'F', '-', '8'], ['u', 't', 'f', '-', '8'], ['u', 't', 'f', '8'], ['U', 'T', 'F', '8'],
@@ -864,9 +879,9 @@ example : ∀ L ∈ [['U', 'T', 'F', '-', '8'], ['u', 't', 'f', '-', '8'], ['u',
     (forLabel (normalise L)).getD .utf8 = .utf8 := by decide
 
 /-- C02_encoding_bait: UTF-8 bytes WITHOUT declaration (with or without byte order mark) decode as
-    UTF-8 whatever `encoding=` / `charset=` text they contain (/repo 72a40b0).  "Without declaration"
-    as the reader sees it: the ASCII characters of the text up to the first `>` do not begin `<?xml`
-    (`hasDeclLookalike`; `C02_pi_lookalike_false` shows the hypothesis cannot be dropped). -/
+    UTF-8 whatever `encoding=` / `charset=` text they contain (/repo 72a40b0, 41ece46).  "Without
+    declaration" as the reader sees it (`hasDeclLookalike t = false`): after the byte order mark, the
+    characters up to the first `>` are not all ASCII or do not begin `<?xml`. -/
 theorem C02_encoding_bait (t : Str) (h : hasDeclLookalike t = false) :
     decodeBytes (encodeUtf8 t) = some (stripBom t) :=
   decodeBytes_utf8_undeclared t h
@@ -882,14 +897,15 @@ example : hasDeclLookalike (['<', '!', '-', '-', ' ', 'e', 'n', 'c', 'o', 'd', '
 example : hasDeclLookalike (['<', '?', 't', ' ', 'c', 'h', 'a', 'r', 's', 'e', 't', '=', '\'', 'u', 't', 'f', '-', '1', '6', '\'',
     '?', '>', '<', 'a', '>', 'é', '<', '/', 'a', '>']) = false := by decide
 
-/-- The defect that is left (finding C02:decode-pi-target-lookalike-differs-from-the-text): the reader
-    skips non-ASCII bytes wherever they stand, so the UTF-8 text `<?éxml encoding="latin1"?>é` — a
-    processing instruction, not a declaration — is decoded as windows-1252. -/
-theorem C02_pi_lookalike_false :
+/-- C02_pi_lookalike_fixed (the former finding C02:decode-pi-target-lookalike-differs-from-the-text,
+    repaired in /repo 41ece46): the UTF-8 text `<?éxml encoding="latin1"?>é` — a processing instruction,
+    not a declaration — is not a lookalike any more and comes back as it is. -/
+theorem C02_pi_lookalike_fixed :
     decodeBytes (encodeUtf8 ['<', '?', 'é', 'x', 'm', 'l', ' ', 'e', 'n', 'c', 'o', 'd', 'i', 'n', 'g', '=', '"', 'l', 'a', 't',
       'i', 'n', '1', '"', '?', '>', 'é']) =
-      some ['<', '?', 'Ã', '©', 'x', 'm', 'l', ' ', 'e', 'n', 'c', 'o', 'd', 'i', 'n', 'g', '=', '"', 'l', 'a', 't',
-        'i', 'n', '1', '"', '?', '>', 'Ã', '©'] := by decide
+      some ['<', '?', 'é', 'x', 'm', 'l', ' ', 'e', 'n', 'c', 'o', 'd', 'i', 'n', 'g', '=', '"', 'l', 'a', 't',
+        'i', 'n', '1', '"', '?', '>', 'é'] :=
+  C02_encoding_bait _ (by decide)
 
 /-- C02_bytes_utf16: behind the UTF-16 byte order mark of either byte order EVERY text comes back
     (declared `UTF-16`, declared anything else, or not declared at all: `Encoding::decode` sniffs the
@@ -901,10 +917,10 @@ theorem C02_bytes_utf16 (be : Bool) (t : Str) : decodeBytes (bom16 be ++ encodeU
     label is `UTF-16` / `utf-16` (`label16_utf16`; generally any label that `for_label` maps to the
     UTF-16 of this byte order after `normalise` and `endianify`): the detector's `<?` pattern gives the
     byte order and the text comes back. -/
-theorem C02_bytes_utf16_nobom (be : Bool) (d : LDecl) (hok : d.ok = true) (hlen : 2 * d.render.length ≤ 1024)
+theorem C02_bytes_utf16_nobom (be : Bool) (d : LDecl) (hok : d.ok = true)
     (L : Str) (hL : d.encoding = some L) (hlabel : forLabel (label16 be L) = some (enc16 be)) (body : Str) :
     decodeBytes (encodeUtf16 be (d.render ++ body)) = some (d.render ++ body) :=
-  decodeBytes_utf16_declared be d hok hlen L hL hlabel body
+  decodeBytes_utf16_declared be d hok L hL hlabel body
 
 example (be : Bool) : forLabel (label16 be ['U', 'T', 'F', '-', '1', '6']) = some (enc16 be) := (label16_utf16 be).1
 
@@ -913,10 +929,10 @@ example (be : Bool) : forLabel (label16 be ['U', 'T', 'F', '-', '1', '6']) = som
     rest ANY bytes: it decodes to the declaration followed by those bytes read through the
     windows-1252 table (`win1252`: ASCII and 0xA0..0xFF are the code point itself = ISO-8859-1;
     0x80..0x9F by the table).  A text is "within the code page" iff it is `body.map win1252`. -/
-theorem C02_bytes_latin (d : LDecl) (hok : d.ok = true) (hlen : d.render.length ≤ 1024) (L : Str)
+theorem C02_bytes_latin (d : LDecl) (hok : d.ok = true) (L : Str)
     (hL : d.encoding = some L) (hlabel : forLabel (normalise L) = some .windows1252) (body : Bytes) :
     decodeBytes (asciiBytes d.render ++ body) = some (d.render ++ body.map win1252) :=
-  decodeBytes_latin d hok hlen L hL hlabel body
+  decodeBytes_latin d hok L hL hlabel body
 
 example : ∀ L ∈ [['I', 'S', 'O', '-', '8', '8', '5', '9', '-', '1'], ['i', 's', 'o', '-', '8', '8', '5', '9', '-', '1'],
     ['l', 'a', 't', 'i', 'n', '1'], ['w', 'i', 'n', 'd', 'o', 'w', 's', '-', '1', '2', '5', '2'], ['c', 'p', '1', '2', '5', '2'],
@@ -960,7 +976,7 @@ theorem C02_bytes_document_utf8 {env : Env} (h : EnvBaseNs env) (sns : List NSNo
     (htop : AbstractTopNs (NSNode.denote.denoteList baseScope sns)) (d : LDoc)
     (hl : d.items.map (Token.erase ∘ LToken.token) = (NSNode.tokens.tokensList sns).map Token.erase)
     (hok : d.ok = true) (hver : ∀ x, d.decl = some x → x.minor = ['0'])
-    (x : LDecl) (hx : d.decl = some x) (hbom : d.bom = false) (hlen : x.render.length ≤ 1024)
+    (x : LDecl) (hx : d.decl = some x) (hbom : d.bom = false)
     (hlabel : ∀ L, x.encoding = some L → (forLabel (normalise L)).getD .utf8 = .utf8) :
     ∃ p, Bytes.parseBytes .document env (encodeUtf8 d.render) = some (.ok p) ∧
       decodeNs p.env p.tree.kids = some (NSNode.denote.denoteList baseScope sns) := by
@@ -971,7 +987,7 @@ theorem C02_bytes_document_utf8 {env : Env} (h : EnvBaseNs env) (sns : List NSNo
   have hr : d.render = x.render ++ (renderL d.items ++ d.trail) := by
     simp [LDoc.render, LDoc.declText, hx, hbom]
   rw [hr]
-  exact decodeBytes_utf8_declared x hxok hlen hlabel _
+  exact decodeBytes_utf8_declared x hxok hlabel _
 
 /-- … as UTF-8 without declaration and without byte order mark (with the mark: `C02_bytes_document_bom`),
     under the reader's notion of "no declaration" (`C02_encoding_bait`).  `hfirst`: the text does not
@@ -1000,7 +1016,7 @@ theorem C02_bytes_document_latin {env : Env} (h : EnvBaseNs env) (sns : List NSN
     (htop : AbstractTopNs (NSNode.denote.denoteList baseScope sns)) (d : LDoc)
     (hl : d.items.map (Token.erase ∘ LToken.token) = (NSNode.tokens.tokensList sns).map Token.erase)
     (hok : d.ok = true) (hver : ∀ x, d.decl = some x → x.minor = ['0'])
-    (x : LDecl) (hx : d.decl = some x) (hbom : d.bom = false) (hlen : x.render.length ≤ 1024)
+    (x : LDecl) (hx : d.decl = some x) (hbom : d.bom = false)
     (L : Str) (hL : x.encoding = some L) (hlabel : forLabel (normalise L) = some .windows1252)
     (body : Bytes) (hbody : body.map win1252 = renderL d.items ++ d.trail) :
     ∃ p, Bytes.parseBytes .document env (asciiBytes x.render ++ body) = some (.ok p) ∧
@@ -1012,7 +1028,7 @@ theorem C02_bytes_document_latin {env : Env} (h : EnvBaseNs env) (sns : List NSN
   have hr : d.render = x.render ++ (renderL d.items ++ d.trail) := by
     simp [LDoc.render, LDoc.declText, hx, hbom]
   rw [hr, ← hbody]
-  exact decodeBytes_latin x hxok hlen L hL hlabel body
+  exact decodeBytes_latin x hxok L hL hlabel body
 
 /-- Non-vacuity: the document of the C02_lexical_prolog example (`exDoc`: byte order mark, declaration
     `version = '1.0' encoding="UTF-8" ?`, comment, namespaced element), written as UTF-16BE behind its
